@@ -173,6 +173,9 @@ func genCase(r *vh.Rng, idx int) *Case {
 	c := &Case{Src: "gen", Valid: true, Symtab: true, Truth: map[string]string{}}
 	c.Abi = []byte{0, 1, 2, 3}[r.Intn(4)]
 	nk := 1 + r.Intn(6)
+	if r.Intn(5) == 0 {
+		nk = 1 // single-kernel objects are also loaded with the empty name
+	}
 	names := append([]string(nil), namePool...)
 	shuffle(r, names)
 	var ks []*kern
@@ -345,12 +348,27 @@ func genCase(r *vh.Rng, idx int) *Case {
 		add(y)
 	}
 	shuffle(r, syms)
+	c.Tag = "valid"
+	if r.Intn(3) == 0 {
+		syms = addDecoys(r, syms, ks, ti, ri, idxOf(".data"), textAddr, roAddr)
+		c.Tag = "valid+decoy"
+	}
 	c.Secs, c.Syms = secs, syms
 	c.ks = ks
 	for _, k := range ks {
 		c.Queries = append(c.Queries, Query{Name: k.name})
 	}
-	c.Tag = "valid"
+	// exactly one kernel symbol (positive size, in .text): auto-detection
+	nKernelSyms := 0
+	for _, y := range syms {
+		if y.Shndx == ti && y.Size > 0 {
+			nKernelSyms++
+		}
+	}
+	if nKernelSyms == 1 {
+		c.Queries = append(c.Queries, Query{Name: ""})
+		c.Tag += "+auto"
+	}
 
 	if idx%3 == 2 {
 		hostile(r, c, ks, ti, ri, textAddr, roAddr, uint64(len(text)), uint64(len(ro)))
@@ -589,4 +607,65 @@ func genHistory(r *vh.Rng) *Case {
 		im.Queries = nil
 	}
 	return h
+}
+
+// addDecoys inserts, at random places before and after the real ones,
+// symbols that carry the name of a kernel, of its descriptor or of its
+// metadata symbols but are not the real thing for the unchanged loader: other
+// sizes (the descriptor is the symbol of size 64), other sections, other
+// types and bindings (LOCAL / GLOBAL / WEAK).  A well-formed object may
+// contain them (ELF allows a local and a global of the same name) and the
+// result of loading the kernel must not depend on them.
+func addDecoys(r *vh.Rng, syms []SymSpec, ks []*kern, ti, ri, di uint16, textAddr, roAddr uint64) []SymSpec {
+	insert := func(y SymSpec) {
+		p := r.Intn(len(syms) + 1)
+		syms = append(syms[:p], append([]SymSpec{y}, syms[p:]...)...)
+	}
+	info := func() uint8 { // binding LOCAL/GLOBAL/WEAK, type NOTYPE/OBJECT/FUNC/SECTION
+		return uint8(r.Intn(3))<<4 | uint8(r.Intn(4))
+	}
+	secOther := func() uint16 { // anywhere except .text: a positive-size symbol there would be another kernel
+		c := []uint16{0, 0xfff1}
+		if ri != 0 {
+			c = append(c, ri, ri)
+		}
+		if di != 0 {
+			c = append(c, di)
+		}
+		return c[r.Intn(len(c))]
+	}
+	for n := 1 + r.Intn(5); n > 0; n-- {
+		k := ks[r.Intn(len(ks))]
+		switch r.Intn(6) {
+		case 0, 1: // <k>.kd of a size other than 64, anywhere (zero-sized ones also in .text)
+			size := []uint64{0, 0, 0, 8, 32, 63, 65, 128}[r.Intn(8)]
+			sh := secOther()
+			if size == 0 && r.Intn(3) == 0 {
+				sh = ti
+			}
+			insert(SymSpec{k.name + ".kd", info(), 0, sh, roAddr + k.kdo, size})
+		case 2: // label with the kernel's name: size 0 in .text
+			insert(SymSpec{k.name, uint8(r.Intn(3)) << 4, 0, ti, textAddr + k.off, 0})
+		case 3: // same name, positive size, not in .text
+			insert(SymSpec{k.name, info(), 0, secOther(), uint64(r.Intn(4096)), uint64(4 * (1 + r.Intn(64)))})
+		case 4, 5: // metadata symbol once more: same value, other binding / type / size / section
+			suffix := []string{".num_vgpr", ".numbered_sgpr"}[r.Intn(2)]
+			for _, y := range syms {
+				if y.Name == k.name+suffix {
+					d := y
+					d.Info = info()
+					if r.Intn(2) == 0 {
+						d.Shndx = secOther()
+					}
+					d.Size = uint64(4 * r.Intn(3))
+					if r.Intn(4) == 0 {
+						d.Value = uint64(r.Intn(300)) // disagreeing duplicate: correspondence only
+					}
+					insert(d)
+					break
+				}
+			}
+		}
+	}
+	return syms
 }
